@@ -514,6 +514,9 @@ func (s *sim) pWrite() []byte {
 	}
 	d := s.pOut[0]
 	s.pOut = nil
+	if s.viol != "" {
+		return nil
+	}
 
 	return d
 }
@@ -808,7 +811,8 @@ func (s *sim) step(ev string) {
 	case "wrongcid": // authentic, newest, protected with the real keys under a different CID
 		if d := s.pWrite(); d != nil {
 			if f := s.reseal(d, func(r *rec) {
-				r.cid = append([]byte(nil), r.cid...)
+				r.hasCID = true
+				r.cid = append([]byte(nil), s.vCID...)
 				r.cid[len(r.cid)-1] ^= 0xff
 			}); f != nil {
 				s.deliver(a, f, true)
